@@ -53,7 +53,7 @@ Section C16.
     qfree /\ ilook b j = None /\ keeps b f /\ (forall p, p <> q -> nlook f p = nlook b p) /\
     nlook f q = Some (DLink j) /\
     (exists nd, ilook f j = Some nd /\ i_kind nd = KReg /\ i_committed nd = cm /\ i_data nd = w) /\
-    rk f /\ (forall i, resolve b SYMLOOP_MAX op = SOk i -> i <> j).
+    rk f /\ (plain -> forall i, resolve b SYMLOOP_MAX op = SOk i -> i <> j).
 
   Definition fsD (j : N) (w : bytes) (f : fs) : Prop :=
     ilook b j = None /\ keeps b f /\ (forall p, p <> q -> p <> op -> nlook f p = nlook b p) /\
@@ -104,7 +104,7 @@ Section C16.
   Qed.
 
   Lemma fsA_stdout f o : fsA f -> fsA (set_stdout f o).
-  Proof. intros (H1 & H2 & H3 & H4). split; [exact H1|]. split; [exact H2|]. split; [exact H3|]. eapply rk_names; eauto. Qed.
+  Proof. intros (H1 & H2 & H3 & H4). split; [exact H1|]. split; [exact H2|]. split; [exact H3|]. apply (rk_names f); [reflexivity | exact H4]. Qed.
 
   Lemma read_fs f iin : fst (sys_read f iin) = f.
   Proof. unfold sys_read. destruct (ilook f iin) as [nd|]; [destruct (i_kind nd)|]; reflexivity. Qed.
@@ -150,20 +150,9 @@ Section C16.
     - unfold nlook. cbn [f_names]. apply (alook_aset_eq String.eqb String.eqb_eq).
     - eexists. split; [unfold ilook; cbn [f_inodes]; apply (alook_aset_eq N.eqb N.eqb_eq)|]. repeat split.
     - eapply rk_frame; [exact Hnm | | exact H4]. intros Hp i Hi. eapply onchain_free; eauto.
-    - (* the file the operand leads to is named in f, so it is not the new inode *)
-      intros i Hi Eij. subst i.
-      destruct (nlook b op) as [[i0|t0]|] eqn:Eop.
-      + (* plain link: no hypothesis needed *)
-        rewrite (resolve_link _ _ _ _ Eop) in Hi. inversion Hi; subst.
-        assert (Hf : nlook f op = Some (DLink j)) by (rewrite H2; auto; intro E; apply q_neq_op; congruence).
-        apply fresh_not_named in Hf. congruence.
-      + (* a symbolic link: its target chain exists in b; the last name is a plain link to j in b, hence j has an inode
-           or at least a name in b; names other than q are the same in f *)
-        destruct (resolve_named _ _ _ _ Hi) as [p' Hp'].
-        destruct (String.eqb_spec p' q) as [->|Hpq].
-        * destruct H3 as [H3|(_ & _ & H3)]; congruence.
-        * rewrite <- (H2 p' Hpq) in Hp'. apply fresh_not_named in Hp'. congruence.
-      + rewrite (resolve_none _ _ _ Eop) in Hi. discriminate.
+    - (* the file the operand leads to has a name in f, so it is not the new inode *)
+      intros Hp i Hi Eij. subst i. specialize (H4 Hp _ Hi).
+      destruct (resolve_named _ _ _ _ H4) as [p' Hp']. apply fresh_not_named in Hp'. congruence.
   Qed.
 
   (* updating the new inode: older inodes and all names are untouched *)
@@ -173,11 +162,14 @@ Section C16.
     (forall nd, i_data nd = w -> i_data (g nd) = w') ->
     fsB cm j w f -> fsB cm' j w' (upd_inode f j g).
   Proof.
-    intros Gk Gc Gd (H0 & Hb & H1 & H2 & H3 & nd & H4 & H5 & H6 & H7). repeat split; auto.
+    intros Gk Gc Gd (H0 & Hb & H1 & H2 & H3 & (nd & H4 & H5 & H6 & H7) & H8 & H9).
+    split; [exact H0|]. split; [exact Hb|]. split; [|split; [|split; [|split; [|split]]]].
     - intros i nd' Hi. rewrite ilook_upd_inode_neq; auto. intros ->. congruence.
     - intros p Hp. rewrite nlook_upd_inode. auto.
     - rewrite nlook_upd_inode. exact H3.
     - exists (g nd). split; [apply ilook_upd_inode_eq; exact H4|]. rewrite Gk. repeat split; auto.
+    - apply (rk_names f); [apply names_upd_inode | exact H8].
+    - exact H9.
   Qed.
 
   Lemma fsB_write cm j w c f : fsB cm j w f -> fsB cm j (w ++ c) (eff_write cf (OFile j) c f).
@@ -188,23 +180,28 @@ Section C16.
 
   Lemma fsB_unlink cm j w f : fsB cm j w f -> snd (sys_unlink f q) = SOk tt /\ fsA (fst (sys_unlink f q)).
   Proof.
-    intros (H0 & Hb & H1 & H2 & H3 & nd & H4 & H5 & _).
+    intros (H0 & Hb & H1 & H2 & H3 & (nd & H4 & H5 & _) & H8 & H9).
     assert (E : sys_unlink f q = (set_names f (arem String.eqb q (f_names f)), SOk tt)).
     { apply unlink_ok. - congruence. - intros i Hi. rewrite H3 in Hi. inversion Hi; subst.
       unfold input_is_dir. rewrite H4, H5. reflexivity. }
-    rewrite E. cbn [fst snd]. split; [reflexivity|]. repeat split.
+    rewrite E. cbn [fst snd]. split; [reflexivity|].
+    assert (Hnm : forall p', p' <> q -> nlook (set_names f (arem String.eqb q (f_names f))) p' = nlook f p').
+    { intros p' Hp. unfold nlook. cbn [f_names set_names]. apply (alook_arem_neq String.eqb String.eqb_eq). auto. }
+    split; [|split; [|split]].
     - intros i nd' Hi. apply H1. exact Hi.
-    - intros p Hp. unfold nlook. cbn [f_names set_names].
-      rewrite (alook_arem_neq String.eqb String.eqb_eq); auto. apply H2; auto.
+    - intros p Hp. rewrite Hnm; auto.
     - unfold nlook at 1. cbn [f_names set_names]. rewrite (alook_arem_eq String.eqb).
       destruct H0 as [H0|[A B]]; [left; congruence | right].
       split; [exact A|]. split; [exact B|]. unfold nlook. cbn [f_names set_names]. apply (alook_arem_eq String.eqb).
+    - intros Hp i Hi. pose proof (H8 Hp i Hi) as Hr.
+      rewrite (resolve_frame f _ q _ _ Hnm); auto.
+      eapply onchain_other; eauto. intro Ej. apply (H9 Hp i Hi). auto.
   Qed.
 
   Lemma fsB_fsD j w f : fsB true j w f -> fsD j w f.
   Proof.
-    intros (H0 & Hb & H1 & H2 & H3 & Hn). repeat split; auto.
-    left. apply H2. intro E. apply q_neq_op. congruence.
+    intros (H0 & Hb & H1 & H2 & H3 & Hn & _). split; [exact Hb|]. split; [exact H1|]. split; [auto|]. split; [exact H3|].
+    split; [exact Hn|]. left. apply H2. intro E. apply q_neq_op. congruence.
   Qed.
 
   Lemma fsD_unlink_in j w f :
@@ -223,27 +220,28 @@ Section C16.
   Qed.
 
   (* ---- what the shapes mean ------------------------------------------------------------------ *)
-  Lemma fsA_first f : fsA f -> first_state cf b f op.
+  Lemma fsA_first f : plain -> fsA f -> first_state cf b f op.
   Proof.
-    intros (H1 & H2 & H3). unfold first_state. rewrite Hq. split.
-    - split; [apply H2; intro E; apply q_neq_op; congruence | exact H1].
+    intros Hpl (H1 & H2 & H3 & H4). unfold first_state. rewrite Hq. split.
+    - split; [apply H2; intro E; apply q_neq_op; congruence|]. split; [exact H1 | exact (H4 Hpl)].
     - unfold output_absent. destruct H3 as [H3|(_ & _ & H3)]; auto.
   Qed.
 
-  Lemma fsB_intact cm j w f : fsB cm j w f -> input_intact b f op.
+  Lemma fsB_intact cm j w f : plain -> fsB cm j w f -> input_intact b f op.
   Proof.
-    intros (_ & _ & H1 & H2 & _). split; [apply H2; intro E; apply q_neq_op; congruence | exact H1].
+    intros Hpl (_ & _ & H1 & H2 & _ & _ & H8 & _).
+    split; [apply H2; intro E; apply q_neq_op; congruence|]. split; [exact H1 | exact (H8 Hpl)].
   Qed.
 
-  Lemma fsD_complete j w f : plain -> Wok w -> fsD j w f -> output_complete_closed codec cf b f op q.
+  Lemma fsD_complete j w f : Wok w -> fsD j w f -> output_complete_closed codec cf b f op q.
   Proof.
-    intros Hpl Hw (Hb & H1 & H2 & H3 & (nd & N1 & N2 & N3 & N4) & _). destruct (Hw Hpl) as (iin & ndin & A & B & C).
+    intros Hw (Hb & H1 & H2 & H3 & (nd & N1 & N2 & N3 & N4) & _). destruct Hw as (iin & ndin & A & B & C).
     exists iin, ndin, j, nd. rewrite N4. repeat split; auto.
   Qed.
 
-  Lemma second_second f rm : plain -> second f rm -> second_state codec cf b f op rm.
+  Lemma second_second f rm : second f rm -> second_state codec cf b f op rm.
   Proof.
-    intros Hpl (_ & j & w & Hw & Hd & Hr). unfold second_state. rewrite Hq. split.
+    intros (_ & j & w & Hw & Hd & Hr). unfold second_state. rewrite Hq. split.
     - eapply fsD_complete; eauto.
     - unfold input_present. intro Hp. destruct Hr as [Hr|[Hr|Hr]]; auto.
   Qed.
@@ -750,8 +748,9 @@ Section C16.
     - intro H. inversion H; subst. cbn. discriminate.
   Qed.
 
-  Definition in_facts (iin : N) : Prop :=
-    sys_open_rd b op = SOk iin /\ (c_force cf = false -> regf = true -> exists i, nlook b op = Some (DLink i)).
+  Definition in_facts (iin : N) (st : stat) : Prop :=
+    sys_open_rd b op = SOk iin /\ sys_fstat b iin = SOk st /\
+    (c_force cf = false -> regf = true -> exists i, nlook b op = Some (DLink i)).
 
   Lemma fatal_0 {T} tag (Q : T -> assn) : hc P0 (fatal pl tag) Q EX.
   Proof.
@@ -761,7 +760,7 @@ Section C16.
 
   Lemma input_init_ok :
     hc P0 (input_init cf pl op)
-       (fun r c => P0 c /\ match r with inl _ => True | inr (iin, _) => in_facts iin end) EX.
+       (fun r c => P0 c /\ match r with inl _ => True | inr (iin, st) => in_facts iin st end) EX.
   Proof.
     unfold input_init.
     eapply hc_bind with (R := fun pre c => P0 c /\ (pre = None -> c_force cf = false -> regf = true ->
@@ -793,7 +792,7 @@ Section C16.
         eapply hc_bind; [apply ro_sys|]. intro r. destruct r as [iin|e|].
         * apply hc_pure_pre. intro Ho.
           eapply hc_bind; [apply ro_sys|]. intro r2. destruct r2 as [st|e|].
-          -- apply hc_ret. intros c [H _]. split; [exact H|]. split; [exact Ho | exact Hpre].
+          -- apply hc_ret. intros c [H Hst]. split; [exact H|]. split; [exact Ho|]. split; [exact Hst | exact Hpre].
           -- eapply hc_bind with (R := fun _ => P0); [apply hc_say; intros c [H _]; exact H|].
              intro. eapply hc_bind; [apply (ro_sys KClose (fun _ => SOk tt))|]. intro r3.
              destruct r3; [apply hc_ret; intros c [H _]; split; [exact H | exact Logic.I] | |].
@@ -806,68 +805,126 @@ Section C16.
   Qed.
 
   (* ---- output_init() ------------------------------------------------------------------------------ *)
-  Lemma output_init_ok st :
-    hc (PA true) (output_init cf pl op st)
-       (fun r c => match r with
-                   | Some (OFile j) => PB false j [] c
-                   | Some _ => PA true c /\ regf = false
-                   | None => PA true c
-                   end) EX.
+  Definition PA0 : assn := fun c => k_opathn c = None /\ k_blocked c = true /\ k_fs c = b.
+
+  Lemma PA0_PA c : PA0 c -> PA true c.
+  Proof. intros (H1 & H2 & H3). split; [exact H1|]. split; [exact H2|]. rewrite H3. apply fsA_refl. Qed.
+
+  Lemma open_rd_resolve f p iin :
+    sys_open_rd f p = SOk iin -> resolve f SYMLOOP_MAX p = SOk iin /\ exists nd, ilook f iin = Some nd.
   Proof.
-    unfold output_init. unfold regf. destruct (c_outmode cf) eqn:Eo.
-    - apply hc_ret. auto.
-    - apply hc_ret. auto.
+    unfold sys_open_rd. destruct (resolve f SYMLOOP_MAX p) as [i|e|]; try discriminate.
+    destruct (ilook f i) as [nd|] eqn:E; try discriminate. intro H.
+    assert (i = iin) by (destruct (i_kind nd); congruence). subst i. split; [reflexivity | eauto].
+  Qed.
+
+  (* the output name is not on the way from the operand to its file: checked by the (repaired) source, or by hypothesis *)
+  Definition qsafe : Prop :=
+    plain -> forall i, resolve b SYMLOOP_MAX op = SOk i -> onchain b SYMLOOP_MAX op q = false.
+
+  Lemma check_qsafe iin st :
+    in_facts iin st -> c_force cf = true ->
+    c_force cf && output_init_checks_same_file && same_file b q st = false -> qsafe.
+  Proof.
+    intros (Ho & Hst & _) Hf Hc Hpl i Hi.
+    destruct (open_rd_resolve _ _ _ Ho) as [Hr [nd Hnd]]. rewrite Hr in Hi. inversion Hi; subst i. clear Hi.
+    rewrite Hf in Hc. cbn [andb] in Hc.
+    destruct output_init_checks_same_file eqn:Efl.
+    - cbn [andb] in Hc. destruct (onchain b SYMLOOP_MAX op q) eqn:Ec; [exfalso | reflexivity].
+      destruct (onchain_resolves _ _ _ _ _ Hr Ec) as (m & Lm & Hm).
+      apply (resolve_mono _ _ SYMLOOP_MAX) in Hm; auto.
+      unfold same_file, sys_stat in Hc. rewrite Hm, Hnd in Hc.
+      unfold sys_fstat in Hst. rewrite Hnd in Hst. inversion Hst; subst st.
+      cbn in Hc. rewrite N.eqb_refl in Hc. discriminate.
+    - destruct Hpl as [Hpl|Hpl]; [discriminate|].
+      destruct (nlook b op) as [[i|t]|] eqn:Eop.
+      + apply (onchain_link _ _ _ _ i); auto. intro E. apply q_neq_op. auto.
+      + exfalso. apply (Hpl Hf t). reflexivity.
+      + apply onchain_none; auto. intro E. apply q_neq_op. auto.
+  Qed.
+
+  Definition out_post : option odst -> assn := fun r c =>
+    match r with
+    | Some (OFile j) => PB false j [] c
+    | Some _ => PA true c /\ regf = false
+    | None => PA true c
+    end.
+
+  Lemma output_init_rest_ok st :
+    regf = true -> (c_force cf = true -> qsafe) ->
+    hc PA0
+       ((if c_force cf
+         then r <- sys pl false KUnlink (fun f => sys_unlink f q);;
+              match r with
+              | SErr e => if N.eqb e ENOENT then ret tt else say MInfo "unlink-out"
+              | _ => ret tt
+              end
+         else ret tt);;;
+        r <- sys pl false KOpen (fun f => sys_creat_excl f q (N.land (st_mode st) open_out_mode_mask)
+                                                      (c_uid cf) (c_gid cf) (c_now cf));;
+        match r with
+        | SOk i => modify (fun s => set_opathn s (Some q));;; ret (Some (OFile i))
+        | _ => warn "open-out";;; ret None
+        end) out_post EX.
+  Proof.
+    intros Hr Hqs.
+    eapply hc_bind with (R := fun _ => PA true).
+    { destruct (c_force cf) eqn:Ef; [|apply hc_ret; intros c H; apply PA0_PA; exact H].
+      eapply hc_bind with (R := fun _ => PA true).
+      - apply hc_sys_gen.
+        + intros c H. eapply PA_kill. apply PA0_PA. exact H.
+        + intros c sg (_ & Hb & _) Hb'. congruence.
+        + intros c e H. apply PA0_PA. exact H.
+        + intros c (H1 & H2 & H3). unfold natural_ok. rewrite H3.
+          assert (Hx : PA true (with_fs c (fst (sys_unlink b q)))).
+          { split; [exact H1|]. split; [exact H2|]. cbn [k_fs with_fs]. apply fsA_force_unlink; [exact Hr | exact Ef | exact (Hqs eq_refl)]. }
+          destruct (unlink_result b q) as [[E1 _]|[e [E1 _]]]; rewrite E1; exact Hx.
+        + discriminate.
+      - intro r. destruct r as [u|e|]; try (apply hc_ret; auto).
+        destruct (N.eqb e ENOENT); [apply hc_ret; auto | apply hc_say; auto]. }
+    intro. eapply hc_bind with (R := fun r c => match r with
+                                                | SOk j => k_opathn c = None /\ k_blocked c = true /\ fsB false j [] (k_fs c)
+                                                | SErr _ => PA true c
+                                                | SHang => False
+                                                end).
+    + apply hc_sys_gen.
+      * intros c H. eapply PA_kill; eauto.
+      * intros c sg (_ & Hb & _) Hb'. congruence.
+      * intros c e H. exact H.
+      * intros c (H1 & H2 & H3). unfold natural_ok.
+        destruct (snd (sys_creat_excl (k_fs c) q _ _ _ _)) as [j|e|] eqn:Ec.
+        -- split; [exact H1|]. split; [exact H2|]. cbn [k_fs with_fs]. apply fsA_creat; auto.
+        -- split; [exact H1|]. split; [exact H2|]. cbn [k_fs with_fs]. rewrite (creat_err _ _ _ _ _ _ _ Ec). exact H3.
+        -- exfalso. eapply creat_not_hang; eauto.
+      * discriminate.
+    + intro r. destruct r as [j|e|].
+      * eapply hc_bind with (R := fun _ => PB false j []).
+        -- apply hc_set_opathn. intros c (_ & H2 & H3). split; [reflexivity|]. split; [exact H2|]. split; [exact Hr | exact H3].
+        -- intro. apply hc_ret. auto.
+      * eapply hc_bind with (R := fun _ => PA true); [apply hc_say; auto|]. intro. apply hc_ret. auto.
+      * apply hc_false.
+  Qed.
+
+  Lemma output_init_ok iin st : in_facts iin st -> hc PA0 (output_init cf pl op st) out_post EX.
+  Proof.
+    intro Hf. unfold output_init. destruct (c_outmode cf) eqn:Eo.
+    - apply hc_ret. intros c H. split; [apply PA0_PA; exact H|]. unfold regf. rewrite Eo. reflexivity.
+    - apply hc_ret. intros c H. split; [apply PA0_PA; exact H|]. unfold regf. rewrite Eo. reflexivity.
     - rewrite Hq.
       assert (Hr : regf = true) by (unfold regf; rewrite Eo; reflexivity).
-      eapply hc_bind with (R := fun _ => PA true).
-      { destruct (c_force cf) eqn:Ef; [|apply hc_ret; auto].
-        eapply hc_bind with (R := fun _ => PA true).
-        - apply hc_sys_gen.
-          + intros c H. eapply PA_kill; eauto.
-          + intros c sg (_ & Hb & _) Hb'. congruence.
-          + intros c e H. exact H.
-          + intros c (H1 & H2 & H3). unfold natural_ok.
-            assert (Hx : PA true (with_fs c (fst (sys_unlink (k_fs c) q)))).
-            { split; [exact H1|]. split; [exact H2|]. cbn [k_fs with_fs]. apply fsA_force_unlink; auto. }
-            destruct (unlink_result (k_fs c) q) as [[E1 _]|[e [E1 _]]]; rewrite E1; exact Hx.
-          + discriminate.
-        - intro r. destruct r as [u|e|]; try (apply hc_ret; auto).
-          destruct (N.eqb e ENOENT); [apply hc_ret; auto | apply hc_say; auto]. }
-      intro. eapply hc_bind with (R := fun r c => match r with
-                                                  | SOk j => k_opathn c = None /\ k_blocked c = true /\ fsB false j [] (k_fs c)
-                                                  | SErr _ => PA true c
-                                                  | SHang => False
-                                                  end).
-      + apply hc_sys_gen.
-        * intros c H. eapply PA_kill; eauto.
-        * intros c sg (_ & Hb & _) Hb'. congruence.
-        * intros c e H. exact H.
-        * intros c (H1 & H2 & H3). unfold natural_ok.
-          destruct (snd (sys_creat_excl (k_fs c) q _ _ _ _)) as [j|e|] eqn:Ec.
-          -- split; [exact H1|]. split; [exact H2|]. cbn [k_fs with_fs]. apply fsA_creat; auto.
-          -- split; [exact H1|]. split; [exact H2|]. cbn [k_fs with_fs]. rewrite (creat_err _ _ _ _ _ _ _ Ec). exact H3.
-          -- exfalso. eapply creat_not_hang; eauto.
-        * discriminate.
-      + intro r. destruct r as [j|e|].
-        * eapply hc_bind with (R := fun _ => PB false j []).
-          -- apply hc_set_opathn. intros c (_ & H2 & H3). split; [reflexivity|]. split; [exact H2|]. split; [exact Hr | exact H3].
-          -- intro. apply hc_ret. auto.
-        * eapply hc_bind with (R := fun _ => PA true); [apply hc_say; auto|]. intro. apply hc_ret. auto.
-        * apply hc_false.
+      intros s Hs. cbv beta. pose proof Hs as (_ & _ & Efs). cbn in Efs. rewrite Efs.
+      destruct (c_force cf && output_init_checks_same_file && same_file b q st) eqn:Esf.
+      + cbn. apply PA0_PA. exact Hs.
+      + apply (output_init_rest_ok st Hr); [|exact Hs]. intro Hfo. eapply check_qsafe; eauto.
   Qed.
 
   (* ---- one operand ------------------------------------------------------------------------------------ *)
-  Lemma facts_Wok iin w :
-    regf = true -> in_facts iin ->
+  Lemma facts_Wok iin st w :
+    in_facts iin st ->
     (forall ndin, ilook b iin = Some ndin -> expected_output codec cf (i_data ndin) = Some w) -> Wok w.
   Proof.
-    intros Hr [Ho Hl] Hw Hpl. destruct (open_rd_ok b op iin Ho) as [Hi Hn].
-    assert (Hlink : exists i, nlook b op = Some (DLink i)).
-    { destruct (c_force cf) eqn:Ef; [|apply Hl; auto].
-      destruct (nlook b op) as [[i|t]|] eqn:E; [eauto | exfalso; apply (Hpl Ef t); exact E | congruence]. }
-    destruct Hlink as [i Hlk]. assert (iin = i) by (eapply open_rd_link; eauto). subst i.
-    destruct (ilook b iin) as [ndin|] eqn:En; [|congruence].
-    exists iin, ndin. repeat split; auto.
+    intros (Ho & _) Hw. destruct (open_rd_resolve _ _ _ Ho) as [Hr [nd Hnd]].
+    exists iin, nd. split; [exact Hr|]. split; [exact Hnd | apply Hw; exact Hnd].
   Qed.
 
   Lemma run1_ok : hc P0 (run1 codec cf pl op) (fun _ => Fin) EX.
@@ -876,9 +933,9 @@ Section C16.
     - apply hc_ret. intros c [H _]. left. destruct H as (H1 & H2 & H3). split; [exact H1|]. split; [exact H2|].
       rewrite H3. apply fsA_refl.
     - apply hc_pure_pre. intro Hf.
-      eapply hc_bind with (R := fun _ => PA true).
-      { apply hc_set_blocked. intros c (H1 & _ & H3). split; [exact H1|]. split; [reflexivity|]. cbn. rewrite H3. apply fsA_refl. }
-      intro. eapply hc_bind; [apply output_init_ok|]. intro oo.
+      eapply hc_bind with (R := fun _ => PA0).
+      { apply hc_set_blocked. intros c (H1 & _ & H3). split; [exact H1|]. split; [reflexivity|]. exact H3. }
+      intro. eapply hc_bind; [apply (output_init_ok iin st Hf)|]. intro oo. unfold out_post.
       assert (TA : forall d : disp, hc (PA true) (sti;;; input_uninit pl;;; ret d) (fun _ => Fin) EX).
       { intro d. eapply hc_bind with (R := fun _ => PA false).
         - apply hc_sti.
@@ -925,7 +982,7 @@ Section C16.
         eapply hc_bind with (R := fun _ c => exists w, PD true j w c); [|intro d; apply hc_exists_pre; intro w; apply TD].
         eapply hc_bind; [apply work_file|]. intro. apply hc_exists_pre. intro w.
         eapply hc_pre with (P := fun c => PB false j w c /\ Wok w).
-        2:{ intros c [H Hw]. split; [exact H|]. apply (facts_Wok iin); auto. apply H. }
+        2:{ intros c [H Hw]. split; [exact H|]. apply (facts_Wok iin st); auto. }
         apply hc_pure_pre. intro Hw.
         eapply hc_bind with (R := fun _ c => exists w, PD true j w c); [|intro; apply hc_ret; auto].
         eapply hc_bind; [apply regf_uninit_ok|]. intro.
@@ -937,8 +994,10 @@ Section C16.
 End C16.
 
 (* ---- from one operand to the whole run ------------------------------------------------------ *)
+(* Unless the source checks that the output name does not lead to the input file (flag regenerated from
+   output_init()), -f on an operand that is a symbolic link is excluded. *)
 Definition plain_op (cf : cfg) (b : fs) (op : path) : Prop :=
-  c_force cf = true -> forall t, nlook b op <> Some (DSym t).
+  output_init_checks_same_file = true \/ (c_force cf = true -> forall t, nlook b op <> Some (DSym t)).
 
 Definition first_or_kept (cf : cfg) (b a : fs) (op : path) : Prop :=
   match c_outmode cf with OmRegf => first_state cf b a op | _ => tree_kept b a end.
@@ -1061,7 +1120,13 @@ Section HP.
   Proof. unfold input_init. hpb. Qed.
 
   Lemma hp_output_init op st : hp (output_init cf pl op st).
-  Proof. unfold output_init. hpb. Qed.
+  Proof.
+    unfold output_init. destruct (c_outmode cf); try apply hp_ret.
+    destruct (out_name (c_decompress cf) op) as [q|]; [|apply hp_fatal].
+    intro s. cbv beta. destruct (_ && _).
+    - assert (H : hp (warn "samefile";;; ret (@None odst))) by hpb. apply H.
+    - match goal with |- match ?c s with _ => _ end => assert (H : hp c) by hpb end. apply H.
+  Qed.
 
   Lemma hp_main_reads n iin : hp (main_reads pl n iin).
   Proof. induction n; cbn [main_reads]; [apply hp_ret|]. apply hp_bind; [apply hp_sys|]. intro r. destruct r; auto. apply hp_fatal. Qed.
@@ -1135,9 +1200,9 @@ Section RunOk.
   Variable cf : cfg.
   Variable pl : plan.
 
-  Lemma fsA_kept b q f : regf cf = false -> fsA cf b q f -> tree_kept b f.
+  Lemma fsA_kept b op q f : regf cf = false -> fsA cf b op q f -> tree_kept b f.
   Proof.
-    intros Hr (H1 & H2 & H3). split; [|exact H1]. intro p.
+    intros Hr (H1 & H2 & H3 & _). split; [|exact H1]. intro p.
     destruct (String.eqb_spec p q) as [->|Hp]; [|apply H2; auto].
     destruct H3 as [H3|(A & _)]; [exact H3 | congruence].
   Qed.
@@ -1146,9 +1211,9 @@ Section RunOk.
   Proof. unfold regf. destruct (c_outmode cf); split; congruence. Qed.
 
   Lemma fsA_first_or_kept b op q f :
-    out_name (c_decompress cf) op = Some q -> fsA cf b q f -> first_or_kept cf b f op.
+    out_name (c_decompress cf) op = Some q -> plain cf b op -> fsA cf b op q f -> first_or_kept cf b f op.
   Proof.
-    intros Hq H. unfold first_or_kept. destruct (c_outmode cf) eqn:Eo.
+    intros Hq Hpl H. unfold first_or_kept. destruct (c_outmode cf) eqn:Eo.
     - eapply fsA_kept; eauto. unfold regf. rewrite Eo. reflexivity.
     - eapply fsA_kept; eauto. unfold regf. rewrite Eo. reflexivity.
     - eapply fsA_first; eauto.
@@ -1158,9 +1223,9 @@ Section RunOk.
   Proof. unfold first_or_kept, safe. destruct (c_outmode cf); auto. Qed.
 
   Lemma second_safe b op q f rm :
-    out_name (c_decompress cf) op = Some q -> plain cf b op -> second codec cf b op q f rm -> safe codec cf b f op rm.
+    out_name (c_decompress cf) op = Some q -> second codec cf b op q f rm -> safe codec cf b f op rm.
   Proof.
-    intros Hq Hpl H. pose proof H as (Hr & _). apply regf_spec in Hr. unfold safe. rewrite Hr.
+    intros Hq H. pose proof H as (Hr & _). apply regf_spec in Hr. unfold safe. rewrite Hr.
     right. eapply second_second; eauto.
   Qed.
 
@@ -1191,8 +1256,8 @@ Section RunOk.
     end.
   Proof.
     intros Hq Hpl [H|H] Hc; [congruence|].
-    assert (FA : forall f, fsA cf b q f -> first_or_kept cf b f op) by (intros; eapply fsA_first_or_kept; eauto).
-    assert (S2 : forall f rm, fsA cf b q f \/ second codec cf b op q f rm -> safe codec cf b f op rm).
+    assert (FA : forall f, fsA cf b op q f -> first_or_kept cf b f op) by (intros; eapply fsA_first_or_kept; eauto).
+    assert (S2 : forall f rm, fsA cf b op q f \/ second codec cf b op q f rm -> safe codec cf b f op rm).
     { intros f rm [A|A]; [apply first_or_kept_safe; auto | eapply second_safe; eauto]. }
     destruct y; cbn in H.
     - destruct (String.eqb tag "close-in") eqn:Et; cbn [strict_first]; rewrite Et; cbn [negb].
@@ -1279,6 +1344,20 @@ Proof.
   rewrite Forall_forall in H. exact (H h Hin Hc Hp).
 Qed.
 
+(* When the source checks that the output name does not lead to the input file, no hypothesis about symbolic links
+   is needed. *)
+Lemma every_started_operand_checked codec cf f ops pl h :
+  output_init_checks_same_file = true ->
+  In h (m_hist (fst (run_full codec cf f ops pl))) ->
+  h_cleanfail h = false ->
+  match h_disp h with
+  | DAborted WKill => kill_safe codec cf (h_before h) (h_after h) (h_op h)
+  | DAborted y => safe codec cf (h_before h) (h_after h) (h_op h) (h_rmfail h) /\
+                  (strict_first y = true -> first_or_kept cf (h_before h) (h_after h) (h_op h))
+  | _ => safe codec cf (h_before h) (h_after h) (h_op h) (h_rmfail h)
+  end.
+Proof. intros Hf Hin Hc. apply (every_started_operand codec cf f ops pl h Hin Hc). left. exact Hf. Qed.
+
 (* ---- witnesses --------------------------------------------------------------------------------- *)
 Definition ex16_codec (m : cmode) (d : bytes) : cres :=
   match m with
@@ -1312,22 +1391,25 @@ Proof.
 Qed.
 
 Lemma force_symlink_witness :
+  output_init_checks_same_file = false ->
   exists codec cf f op pl ino,
     nlook f "x"%string = Some (DLink ino) /\ (exists nd, ilook f ino = Some nd /\ i_data nd <> []) /\
     snd (run codec cf f [op] pl) = Exit 1 /\
     forall p, nlook (fst (run codec cf f [op] pl)) p <> Some (DLink ino).
 Proof.
-  exists ex16_codec,
+  intro Hflag.
+  first [ exfalso; vm_compute in Hflag; discriminate Hflag | idtac ].
+  all: exists ex16_codec,
     {| c_decompress := true; c_force := true; c_keep := false; c_outmode := OmRegf; c_uid := 0; c_gid := 0; c_now := 99 |},
     {| f_names := [("x"%string, DLink 1); ("x.bz2"%string, DSym "x"%string)];
        f_inodes := [(1, ex16_node [104; 101; 108; 108; 111])]; f_stdout := [] |},
     "x.bz2"%string, [], 1.
-  split; [reflexivity|]. split; [eexists; split; [reflexivity | discriminate]|].
-  split; [vm_compute; reflexivity|].
-  intro p. unfold nlook.
-  match goal with |- alook _ _ (f_names (fst ?R)) <> _ =>
+  all: split; [reflexivity|]. all: split; [eexists; split; [reflexivity | discriminate]|].
+  all: split; [vm_compute; reflexivity|].
+  all: intro p. all: unfold nlook.
+  all: match goal with |- alook _ _ (f_names (fst ?R)) <> _ =>
     assert (E : f_names (fst R) = [("x.bz2"%string, DSym "x"%string)]) by (vm_compute; reflexivity) end.
-  rewrite E. cbn [alook]. destruct (String.eqb "x.bz2" p); discriminate.
+  all: rewrite E. all: cbn [alook]. all: destruct (String.eqb "x.bz2" p); discriminate.
 Qed.
 
 Lemma cleanup_failure_witness :
@@ -1339,5 +1421,32 @@ Proof.
   exists ex16_codec, ex16_cfg, ex16_fs, "a"%string, [(KWrite, 2%nat, Fail ENOSPC); (KUnlink, 1%nat, Fail EIO)].
   vm_compute. split; [reflexivity|]. eexists. split; [reflexivity|]. split; [reflexivity|]. split.
   - intros [_ [H|H]]; discriminate.
-  - split; [reflexivity|]. intros i nd H. destruct i as [|[[p|p|]|[p|p|]|]]; cbn in *; try discriminate; exact H.
+  - split; [reflexivity|]. split; [|intros i H; exact H].
+    intros i nd H. destruct i as [|[[p|p|]|[p|p|]|]]; cbn in *; try discriminate; exact H.
 Qed.
+
+(* ---- after the repair of the -f data loss is in the source (append to coq/Front/FrontC16.v) ---- *)
+(* side condition on the regenerated flag: output_init() stat()s the output name and skips the operand when it
+   leads to the file being read *)
+Lemma sc_same_file_check :
+  output_init_checks_same_file = true /\ same_file_under = ["if:force"]%string.
+Proof. split; reflexivity. Qed.
+
+Lemma every_started_operand_final codec cf f ops pl h :
+  In h (m_hist (fst (run_full codec cf f ops pl))) ->
+  h_cleanfail h = false ->
+  match h_disp h with
+  | DAborted WKill => kill_safe codec cf (h_before h) (h_after h) (h_op h)
+  | DAborted y => safe codec cf (h_before h) (h_after h) (h_op h) (h_rmfail h) /\
+                  (strict_first y = true -> first_or_kept cf (h_before h) (h_after h) (h_op h))
+  | _ => safe codec cf (h_before h) (h_after h) (h_op h) (h_rmfail h)
+  end.
+Proof. exact (every_started_operand_checked codec cf f ops pl h (proj1 sc_same_file_check)). Qed.
+
+(* the scenario of the former finding: the operand is skipped with a warning, nothing changes *)
+Lemma force_symlink_fixed :
+  let cf := {| c_decompress := true; c_force := true; c_keep := false; c_outmode := OmRegf; c_uid := 0; c_gid := 0; c_now := 99 |} in
+  let f := {| f_names := [("x"%string, DLink 1); ("x.bz2"%string, DSym "x"%string)];
+              f_inodes := [(1, ex16_node [104; 101; 108; 108; 111])]; f_stdout := [] |} in
+  run ex16_codec cf f ["x.bz2"%string] [] = (f, Exit 4).
+Proof. vm_compute. reflexivity. Qed.
